@@ -73,7 +73,7 @@ pub fn gen_cli(rng: &mut Rng, prop: &str) -> CliCase {
     let mut p = Profile::default();
     p.zero_len_pm = 0;
     p.bed_zero_zero_pm = 0;
-    p.max_items = 80;
+    p.max_items = if prop == "C16" && rng.chance(1, 5) { 1200 } else { 80 };
     p.huge = false;
     p.io_chaos = false;
     if prop == "C19" {
@@ -611,7 +611,9 @@ pub fn gen_conv(rng: &mut Rng) -> ConvCase {
     let mut p = Profile::default();
     p.zero_len_pm = 0;
     p.bed_zero_zero_pm = 0;
-    p.max_items = 150;
+    // a third of the files has chromosomes whose text exceeds the converters' 8 KiB write buffer, so that the
+    // staging buffer holds flushed data when the redirect arrives (mid-stream migration)
+    p.max_items = if rng.chance(1, 3) { 1500 } else { 150 };
     p.io_chaos = false;
     p.sched_chaos = false;
     p.all_sources = false;
